@@ -32,12 +32,18 @@ type Case struct {
 	Limit    int      `json:"limit"`    // 0 = none; answers larger than this are dropped / truncated
 	Trunc    bool     `json:"trunc"`
 	DomLen   int      `json:"domain_length,omitempty"` // 0 = the default tunnel domain; else a domain of this many characters
+	// Answers: the path treats the host names (CNAME / MX / SRV targets) and text strings (TXT)
+	// in ANSWERS the way it treats query names: same letter-case folding, same 8-bit handling
+	Answers bool `json:"answers,omitempty"`
 }
 
 func (c Case) String() string {
 	d := ""
 	if c.DomLen > 0 {
 		d = fmt.Sprintf(" domainLength=%d", c.DomLen)
+	}
+	if c.Answers {
+		d += " answers-too"
 	}
 	return fmt.Sprintf("casing=%s 8bit=%s types=%v limit=%d trunc=%v%s", c.Casing, c.EightBit, c.Types, c.Limit, c.Trunc, d)
 }
@@ -100,6 +106,111 @@ func rewriteName(c Case, exch int, wire []byte) []byte {
 	return wire
 }
 
+// mangleText applies the path's case / 8-bit behaviour to a presentation-format name or TXT
+// string of an answer (miekg escapes: \\DDD for an octet, \\X for a special character). ok=false:
+// the path drops the answer.
+func mangleText(c Case, exch int, s string, isName bool) (string, bool) {
+	var out []byte
+	pos := 0
+	emit := func(b byte, wasEscaped bool) bool {
+		if b >= 0x80 {
+			switch c.EightBit {
+			case "strip":
+				b &= 0x7F
+			case "drop":
+				return false
+			}
+		}
+		isLower, isUpper := b >= 'a' && b <= 'z', b >= 'A' && b <= 'Z'
+		switch c.Casing {
+		case "lower":
+			if isUpper {
+				b += 32
+			}
+		case "upper":
+			if isLower {
+				b -= 32
+			}
+		case "alternating":
+			if pos%2 == 0 && isLower {
+				b -= 32
+			} else if pos%2 == 1 && isUpper {
+				b += 32
+			}
+		case "rand0x20":
+			if (isLower || isUpper) && (uint32(exch*2654435761+pos*40503)>>7)&1 == 1 {
+				b ^= 0x20
+			}
+		}
+		pos++
+		special := b == '"' || b == '\\' || (isName && (b == '.' || b == ' ' || b == '\'' || b == '@' || b == ';' || b == '(' || b == ')'))
+		switch {
+		case b < 0x21 || b > 0x7E:
+			out = append(out, []byte(fmt.Sprintf("\\%03d", b))...)
+		case special || (wasEscaped && !(b >= '0' && b <= '9') && !(b|0x20 >= 'a' && b|0x20 <= 'z')):
+			out = append(out, '\\', b)
+		default:
+			out = append(out, b)
+		}
+		return true
+	}
+	for i := 0; i < len(s); i++ {
+		ch := s[i]
+		if ch == '\\' && i+3 < len(s) && s[i+1] >= '0' && s[i+1] <= '9' && s[i+2] >= '0' && s[i+2] <= '9' && s[i+3] >= '0' && s[i+3] <= '9' {
+			b := (s[i+1]-'0')*100 + (s[i+2]-'0')*10 + (s[i+3] - '0')
+			i += 3
+			if !emit(b, true) {
+				return "", false
+			}
+			continue
+		}
+		if ch == '\\' && i+1 < len(s) {
+			i++
+			if !emit(s[i], true) {
+				return "", false
+			}
+			continue
+		}
+		if isName && ch == '.' {
+			out = append(out, '.') // label separator
+			continue
+		}
+		if !emit(ch, false) {
+			return "", false
+		}
+	}
+	return string(out), true
+}
+
+// mangleAnswer applies mangleText to every host name / text string of the answer records.
+func mangleAnswer(c Case, exch int, a *dns.Msg) bool {
+	for _, rr := range a.Answer {
+		var ok = true
+		switch v := rr.(type) {
+		case *dns.CNAME:
+			v.Target, ok = mangleText(c, exch, v.Target, true)
+		case *dns.MX:
+			v.Mx, ok = mangleText(c, exch, v.Mx, true)
+		case *dns.SRV:
+			v.Target, ok = mangleText(c, exch, v.Target, true)
+		case *dns.TXT:
+			if c.EightBit != "transparent" { // (text strings are not case-folded by anything)
+				cc := c
+				cc.Casing = "none"
+				for i := range v.Txt {
+					if v.Txt[i], ok = mangleText(cc, exch, v.Txt[i], false); !ok {
+						break
+					}
+				}
+			}
+		}
+		if !ok {
+			return false
+		}
+	}
+	return true
+}
+
 // caseDomain is the tunnel domain of a case: the default one, or a valid name of exactly
 // DomLen characters (labels of at most 59).
 func caseDomain(c Case) string {
@@ -136,6 +247,9 @@ func execute(t *testing.T, c Case) (kind, detail string, hsOK bool) {
 			if len(q.Question) > 0 && !allowed[q.Question[0].Qtype] {
 				a.Answer = nil
 				a.Rcode = dns.RcodeRefused
+			}
+			if c.Answers {
+				return mangleAnswer(c, exch, a)
 			}
 			return true
 		}
@@ -384,6 +498,24 @@ func cases(thorough bool) []Case {
 			}
 		}
 	}
+	// the path does to answers what it does to query names
+	for _, cs := range casings {
+		for _, eb := range eights {
+			if cs == "none" && eb == "transparent" {
+				continue
+			}
+			tss := [][]string{priority, {"TXT", "SRV", "MX", "CNAME", "AAAA", "A"}, {"SRV", "MX", "CNAME", "AAAA", "A"}, {"MX", "CNAME", "AAAA", "A"}, {"CNAME", "AAAA", "A"}, {"TXT"}, {"SRV"}, {"MX"}, {"CNAME"}}
+			ls := []int{0}
+			if thorough {
+				ls = []int{0, 512, 1500}
+			}
+			for _, ts := range tss {
+				for _, l := range ls {
+					add(Case{Casing: cs, EightBit: eb, Types: ts, Limit: l, Answers: true})
+				}
+			}
+		}
+	}
 	if thorough {
 		for _, cs := range casings {
 			for _, eb := range eights {
@@ -436,7 +568,7 @@ func TestCheck(t *testing.T) {
 		return
 	}
 	all := cases(r.Thorough())
-	succ := 0
+	succ, succAns := 0, 0
 	for idx, c := range all {
 		if !r.Mine(idx) {
 			continue
@@ -451,6 +583,9 @@ func TestCheck(t *testing.T) {
 		record(c, k, d, ok)
 		if ok {
 			succ++
+			if c.Answers {
+				succAns++
+			}
 		}
 		if idx%37 == 0 {
 			r.Sample(map[string]any{"path": c.String(), "handshake_ok": ok, "outcome": k})
@@ -459,4 +594,5 @@ func TestCheck(t *testing.T) {
 	}
 	r.Note("paths_total", len(all))
 	r.Note("sum_handshakes_succeeded", succ)
+	r.Note("sum_handshakes_succeeded_on_answer_mangling_paths", succAns)
 }
